@@ -459,9 +459,9 @@ func c09Observers() []model.ObsSpec {
 
 func init() {
 	Registry["C09"] = func(t Tier) *Check {
-		d := 3
+		d := 4
 		if t == Thorough {
-			d = 4
+			d = 5
 		}
 		obs := c09Observers()
 		var reg []model.Op
